@@ -112,6 +112,7 @@ def shard(ctx: Ctx) -> None:
     sweep.high_water_sweep(ctx, PROP)
     sweep.deadline_sweep(ctx, PROP)
     sweep.keepalive_values_sweep(ctx, PROP)
+    sweep.hello_content_sweep(ctx, PROP)
     sweep.abandoned_disconnect_sweep(ctx, PROP)
     sweep.trailing_frames_sweep(ctx, PROP)
     sweep.raising_on_stop_sweep(ctx, PROP)
